@@ -310,7 +310,7 @@ def _slice_fill(cx, it, f0, X, rowv):
         ok = stops == {not blank}
         cx.ob("R18d", H, ok, f"a leading cell holding {label} {'is filled from above' if blank else 'stops the fill'}" if ok else
               f"a leading cell holding {label} {'stops the fill' if blank else 'is treated as blank: it is overwritten by the cell above (value and origin of another row)'}"
-              + (" on some paths" if len(stops) > 1 else ""), stmt=f"{H.name}({label})")
+              + (" on some paths" if len(stops) > 1 else ""), stmt=f"{H.name}({label})", semantic=True)
 
 
 # ---------------------------------------------------------------------- R18g: the blank-cell predicate
